@@ -175,6 +175,10 @@ func (z *reader) Reset(r io.Reader, dict []byte) error {
 			z.decompressor = flate.NewReader(z.r)
 		}
 	} else {
+		if !haveDict {
+			// as in NewReaderDict: a stream that does not ask for a dictionary is decoded without one
+			dict = nil
+		}
 		z.decompressor.(flate.Resetter).Reset(z.r, dict)
 	}
 	z.digest = adler32.New()
